@@ -119,6 +119,10 @@ def check(ctx):
         outer = loops[0]
         framer_q = outer.func
         framer = prog.funcs[framer_q]
+        if framer.is_generator:
+            # the loop that cuts packets off the carry is a generator's, the dispatch sits in its consumer: cutting, handing on and trimming
+            # are spread over two frames that alternate.  The rules below read one loop in one frame - no verdict rather than a guess
+            raise AnalysisError("framing loop of %s is a generator (%s) consumed elsewhere: shape not read" % (cq, framer_q))
         ctx.ob("F1", "%s the chunk is appended to the carry before framing" % cq, p0.events.index(ext[0]) < p0.events.index(outer),
                where=where(ext[0]), function=framer_q, construct="%s/extend-first" % framer_q, nontrivial=False)
         # F5: a while loop whose every iteration works on the current carry (its test re-reads it, or it is `while True` left
